@@ -150,6 +150,7 @@ Definition spin_cfg := fst (run (step P0) spin_sched (init (progs2 [OCreate reqA
 Lemma c06_open_spin_refuted :
   forallb (fun k => negb (finished (fst (run (step P0) (repeat 1 k)%nat spin_cfg)) 1%nat)) (seq 0 (S (solo_bound P0))) = true.
 Proof. vm_compute. reflexivity. Qed.
+Print Assumptions c06_open_spin_refuted.
 
 (* witness 2: create of a slice-payload service with max_nodes 0 panics (DynamicConfig::init) and leaves the
    dynamic config segment behind *)
@@ -158,6 +159,7 @@ Definition panic_cfg := fst (run (step P9) panic_sched (init (progs2 [OCreate re
 Lemma c06_create_panics :
   rets (snd panic_cfg 0%nat) = [RPanic] /\ listing (fst panic_cfg) = (0, 1, 0)%nat /\ at_pc (snd panic_cfg 0%nat) = Idle.
 Proof. vm_compute. auto. Qed.
+Print Assumptions c06_create_panics.
 
 Theorem c06_terminates_refuted : ~ c06_terminates_full.
 Proof.
